@@ -241,3 +241,26 @@ Proof.
   rn. unfold Rltb. repeat (destruct (Rlt_dec _ _); try lra). cbn [snd].
   split; [lra|]. split; [f_equal; [field | f_equal; field]|]. split; [field|]. f_equal; [field | f_equal; field].
 Qed.
+
+(* ---------------- corners excluded by [ms <> []] / [pos_prefix]: what the code does there *)
+(* N_real = 0: nothing happens *)
+Theorem empty_simulation_frames : move_to_com RNum [] [] = [] /\ move_to_hel RNum [] = [] /\ com_m RNum [] [] = 0 /\ com_q RNum [] [] = 0.
+Proof. repeat split. Qed.
+(* N_real = 1 with a positive mass: the particle ends at rest at the origin under both frame changes *)
+Theorem single_particle_frames : forall m q, 0 < m -> move_to_com RNum [m] [q] = [0] /\ move_to_hel RNum [q] = [0].
+Proof.
+  intros m q Hm. split; [|reflexivity]. unfold move_to_com, com_q, shift. cbn [com_range map snd]. rn. unfold Rltb.
+  destruct (Rlt_dec 0 (0 + m)); [|lra]. cbn [snd]. f_equal. field. lra.
+Qed.
+(* total mass zero (all real particles massless): reb_particle_com_of_pair never divides, the centre of mass is reported as 0 and the real
+   particles stay where they are.  (The variational corrections divide by the total mass: with M = 0 the code produces NaN/inf there; the
+   theorems about them assume M <> 0.) *)
+Theorem all_massless_stay : forall ms qs, Forall (fun m => m = 0) ms -> length ms = length qs -> move_to_com RNum ms qs = qs.
+Proof.
+  intros ms qs H Hl.
+  assert (G : forall ms qs, Forall (fun m => m = 0) ms -> length ms = length qs -> com_range RNum ms qs 0 0 = (0, 0)).
+  { clear. induction ms as [|m ms IH]; intros [|q qs] H Hl; try discriminate; [reflexivity|]. inversion H as [|? ? Hm Hr]; subst.
+    cbn [com_range]. rn. unfold Rltb. destruct (Rlt_dec 0 (0 + 0)); [lra|].
+    replace (0 + 0) with 0 by ring. replace (0 * 0 + q * 0) with 0 by ring. apply IH; [exact Hr | cbn in Hl; injection Hl; auto]. }
+  unfold move_to_com, com_q. change (nzero RNum) with 0. rewrite (G ms qs H Hl). cbn [snd]. apply shift_0.
+Qed.
